@@ -1,10 +1,291 @@
-import Xp.Model.C08
+import Xp.Proofs.C08Trace
 /-
-C08 property theorems (placeholder while the correspondence is brought up).
+C08 — teardown happens in dependency order.
+
+Two layers.
+
+LOCAL theorems (`*_after_*`, `*_before_*`, `usage_waits_using`): about ONE reconcile
+of one controller, for every server semantics `sm` (so also a server whose store is
+changed by others between two calls), every fault plan (error, conflict, crash
+before/after at any call index) and every start store: a teardown write is issued
+only after the reconcile has itself seen the reply that licenses it.  `h` is the
+history of (request, reply) pairs the reconcile had seen when it issued the request.
+
+TRACE theorems (`trace_*`): about every configuration reachable in the interleaved
+system `Sys` (any number of reconciles of the six controllers in flight, each taking
+its next API call with any fault outcome, interleaved with user deletions, garbage
+collection steps, third-party finalizer removals and process crashes): at the moment
+a controller's teardown write is applied, the state-based ordering constraint holds.
+The alphabet contains the deletion branches only (no creation of objects, see
+props/C08.json for what that leaves out).
 -/
 namespace Xp.C08
+open Xp.Gen
 
-theorem placeholder_stop_removes (s : St) (c : String) : c ∉ (exec s (.stop c)).1.running := by
-  simp [exec]
+/-! ## local theorems: one faulty reconcile -/
+
+/-- On every path of every modelled reconcile (every possible reply to every call),
+each request is issued only when its guard holds of what was seen so far. -/
+theorem every_path_guarded (c : Ctl) (n : String) : Always (guardH c n) [] (program c n) :=
+  always_program c n
+
+/-- The claim finalizer is removed only in a reconcile that read the claim and then read
+its XR as NotFound (or the claim references none), or — policy not Foreground — had its
+Delete(XR) acknowledged. With Foreground only the NotFound read counts. -/
+theorem claim_fin_after_xr (sm : Sem St Req Resp) (plan : Plan) (s : St) (n : String)
+    (h : Hist) (k : Key) (rv : Nat)
+    (hi : (h, Req.removeFin k rv c08ClaimFinalizer) ∈ issued sm plan 0 [] (claimRec n) s) :
+    ∃ cm, (Req.get ⟨.claim, n⟩, Resp.obj cm) ∈ h ∧
+      (cm.ref = "" ∨ (Req.get ⟨.xr, cm.ref⟩, Resp.notFound) ∈ h ∨
+        (cm.flag = false ∧ ((Req.delete ⟨.xr, cm.ref⟩ false, Resp.ok) ∈ h ∨
+                            (Req.delete ⟨.xr, cm.ref⟩ false, Resp.notFound) ∈ h))) :=
+  (always_issued sm plan _ 0 [] _ s (always_claimRec n) _ hi rfl).2
+
+/-- The definition controller deletes a CRD only after, in the same reconcile and in this
+order, List(XR) returned no instance and engine.Stop(composite controller) returned nil. -/
+theorem crd_after_instances_and_stop (sm : Sem St Req Resp) (plan : Plan) (s : St) (n : String)
+    (h : Hist) (crd : String) (fg : Bool)
+    (hi : (h, Req.delete ⟨.crd, crd⟩ fg) ∈ issued sm plan 0 [] (definedRec n) s) :
+    Before h (Req.list .xr, Resp.list []) (Req.stop (compositeCtrl n), Resp.ok) :=
+  always_issued sm plan _ 0 [] _ s (always_definedRec n) _ hi rfl
+
+/-- The offered controller deletes a CRD only after, in the same reconcile and in this
+order, List(claims) returned no instance and engine.Stop(claim controller) returned nil. -/
+theorem crd_after_instances_and_stop_offered (sm : Sem St Req Resp) (plan : Plan) (s : St) (n : String)
+    (h : Hist) (crd : String) (fg : Bool)
+    (hi : (h, Req.delete ⟨.crd, crd⟩ fg) ∈ issued sm plan 0 [] (offeredRec n) s) :
+    Before h (Req.list .claim, Resp.list []) (Req.stop (claimCtrl n), Resp.ok) :=
+  always_issued sm plan _ 0 [] _ s (always_offeredRec n) _ hi rfl
+
+/-- engine.Stop is only ever asked for this XRD's composite controller, and — unless the
+reconcile read the CRD as NotFound or as not controlled by this XRD — only after
+List(XR) returned no instance. -/
+theorem stop_after_instances (sm : Sem St Req Resp) (plan : Plan) (s : St) (n : String)
+    (h : Hist) (ctl : String)
+    (hi : (h, Req.stop ctl) ∈ issued sm plan 0 [] (definedRec n) s) :
+    ctl = compositeCtrl n ∧ ∃ d, (Req.get ⟨.xrd, n⟩, Resp.obj d) ∈ h ∧
+      (CRDNotOursSeen h d.ref d.uid ∨ (Req.list .xr, Resp.list []) ∈ h) :=
+  always_issued sm plan _ 0 [] _ s (always_definedRec n) _ hi
+
+theorem stop_after_instances_offered (sm : Sem St Req Resp) (plan : Plan) (s : St) (n : String)
+    (h : Hist) (ctl : String)
+    (hi : (h, Req.stop ctl) ∈ issued sm plan 0 [] (offeredRec n) s) :
+    ctl = claimCtrl n ∧ ∃ d, (Req.get ⟨.xrd, n⟩, Resp.obj d) ∈ h ∧
+      (CRDNotOursSeen h d.of d.uid ∨ (Req.list .claim, Resp.list []) ∈ h) :=
+  always_issued sm plan _ 0 [] _ s (always_offeredRec n) _ hi
+
+/-- The XRD's `defined` finalizer is removed only in a reconcile that read the composite
+CRD as NotFound or as not controlled by this XRD. -/
+theorem xrd_fin_after_crd (sm : Sem St Req Resp) (plan : Plan) (s : St) (n : String)
+    (h : Hist) (k : Key) (rv : Nat)
+    (hi : (h, Req.removeFin k rv c08DefinedFinalizer) ∈ issued sm plan 0 [] (definedRec n) s) :
+    ∃ d, (Req.get ⟨.xrd, n⟩, Resp.obj d) ∈ h ∧ CRDNotOursSeen h d.ref d.uid :=
+  (always_issued sm plan _ 0 [] _ s (always_definedRec n) _ hi rfl).2
+
+theorem xrd_fin_after_crd_offered (sm : Sem St Req Resp) (plan : Plan) (s : St) (n : String)
+    (h : Hist) (k : Key) (rv : Nat)
+    (hi : (h, Req.removeFin k rv c08OfferedFinalizer) ∈ issued sm plan 0 [] (offeredRec n) s) :
+    ∃ d, (Req.get ⟨.xrd, n⟩, Resp.obj d) ∈ h ∧ CRDNotOursSeen h d.of d.uid :=
+  (always_issued sm plan _ 0 [] _ s (always_offeredRec n) _ hi rfl).2
+
+/-- A deleted package revision removes its finalizer only in a reconcile that saw that it
+is not in the Lock: the Lock was NotFound, or was read without it, or the update that
+removes it was acknowledged. -/
+theorem rev_lock_before_fin (sm : Sem St Req Resp) (plan : Plan) (s : St) (n : String)
+    (h : Hist) (k : Key) (rv : Nat)
+    (hi : (h, Req.removeFin k rv c08RevisionFinalizer) ∈ issued sm plan 0 [] (revRec n) s) :
+    (Req.get lockKey, Resp.notFound) ∈ h ∨ (∃ l, (Req.get lockKey, Resp.obj l) ∈ h ∧ n ∉ l.pkgs) ∨
+      ∃ rv' l, (Req.lockRemove rv' n, Resp.obj l) ∈ h :=
+  (always_issued sm plan _ 0 [] _ s (always_revRec n) _ hi rfl).2
+
+/-- A Usage that is part of a composition (carries the composite label and names a using
+resource) removes its finalizer only in a reconcile that read the using resource as
+NotFound. -/
+theorem usage_waits_using (sm : Sem St Req Resp) (plan : Plan) (s : St) (n : String)
+    (h : Hist) (k : Key) (rv : Nat)
+    (hi : (h, Req.removeFin k rv c08UsageFinalizer) ∈ issued sm plan 0 [] (usageRec n) s) :
+    ∃ u, (Req.get ⟨.usage, n⟩, Resp.obj u) ∈ h ∧
+      (u.ref = "" ∨ u.flag = false ∨ (Req.get ⟨.res, u.ref⟩, Resp.notFound) ∈ h) :=
+  (always_issued sm plan _ 0 [] _ s (always_usageRec n) _ hi rfl).2
+
+/-! ## trace theorems: every interleaving -/
+
+/-- the configurations reachable from store `st0` with no reconcile in flight -/
+def reach (st0 : St) (acts : List Act) : Sys := Sys.run ⟨st0, []⟩ acts
+
+/-- General form: in every reachable configuration the next request of every in-flight
+reconcile satisfies `safeReq` in the current store. -/
+theorem trace_order (st0 : St) (acts : List Act) (t : Thread) (r : Req) (k : Resp → P)
+    (ht : t ∈ (reach st0 acts).ths) (hp : t.prog = .call r k) :
+    safeReq (reach st0 acts).st t.ctl t.name r = true :=
+  safe_reachable st0 acts t r k ht hp
+
+/-- When a claim reconcile is about to remove the claim finalizer, the XR the stored claim
+references is gone, or — policy not Foreground — is already being deleted. -/
+theorem trace_claim_fin_after_xr (st0 : St) (acts : List Act) (t : Thread) (kk : Key) (rv : Nat) (k : Resp → P)
+    (ht : t ∈ (reach st0 acts).ths) (hc : t.ctl = .claim)
+    (hp : t.prog = .call (.removeFin kk rv c08ClaimFinalizer) k)
+    (cm : Obj) (hcm : find (reach st0 acts).st kk = some cm) (href : cm.ref ≠ "")
+    (x : Obj) (hx : find (reach st0 acts).st ⟨.xr, cm.ref⟩ = some x) :
+    x.del = true ∧ cm.flag = false := by
+  have := trace_order st0 acts t _ k ht hp
+  rw [hc] at this
+  simp only [safeReq, hcm, claimXRGone, hx] at this
+  simpa [href] using this
+
+/-- When the definition reconcile of XRD `n` is about to delete a CRD, no XR exists and
+the composite controller of `n` is not running. -/
+theorem trace_crd_after_instances_and_stop (st0 : St) (acts : List Act) (t : Thread) (crd : String) (fg : Bool) (k : Resp → P)
+    (ht : t ∈ (reach st0 acts).ths) (hc : t.ctl = .defined)
+    (hp : t.prog = .call (.delete ⟨.crd, crd⟩ fg) k) :
+    (∀ o ∈ (reach st0 acts).st.objs, o.key.kind ≠ .xr) ∧ compositeCtrl t.name ∉ (reach st0 acts).st.running := by
+  have := trace_order st0 acts t _ k ht hp
+  rw [hc] at this
+  simp only [safeReq, noneOf, bne_self_eq_false, Bool.false_or, Bool.and_eq_true, List.all_eq_true,
+    Bool.not_eq_true'] at this
+  refine ⟨fun o ho => by simpa using this.1 o ho, ?_⟩
+  simpa using this.2
+
+theorem trace_crd_after_instances_and_stop_offered (st0 : St) (acts : List Act) (t : Thread) (crd : String) (fg : Bool) (k : Resp → P)
+    (ht : t ∈ (reach st0 acts).ths) (hc : t.ctl = .offered)
+    (hp : t.prog = .call (.delete ⟨.crd, crd⟩ fg) k) :
+    (∀ o ∈ (reach st0 acts).st.objs, o.key.kind ≠ .claim) ∧ claimCtrl t.name ∉ (reach st0 acts).st.running := by
+  have := trace_order st0 acts t _ k ht hp
+  rw [hc] at this
+  simp only [safeReq, noneOf, bne_self_eq_false, Bool.false_or, Bool.and_eq_true, List.all_eq_true,
+    Bool.not_eq_true'] at this
+  refine ⟨fun o ho => by simpa using this.1 o ho, ?_⟩
+  simpa using this.2
+
+/-- When the definition reconcile is about to stop the composite controller while the
+XRD still exists, either the CRD is gone or not controlled by the XRD ("never ours"), or
+no XR exists. -/
+theorem trace_stop_after_instances (st0 : St) (acts : List Act) (t : Thread) (ctl : String) (k : Resp → P)
+    (ht : t ∈ (reach st0 acts).ths) (hc : t.ctl = .defined) (hp : t.prog = .call (.stop ctl) k)
+    (d : Obj) (hd : find (reach st0 acts).st ⟨.xrd, t.name⟩ = some d) :
+    crdNotOurs (reach st0 acts).st d.ref d.uid = true ∨ ∀ o ∈ (reach st0 acts).st.objs, o.key.kind ≠ .xr := by
+  have := trace_order st0 acts t _ k ht hp
+  rw [hc] at this
+  simp only [safeReq, hd, Bool.or_eq_true] at this
+  rcases this with h | h
+  · exact .inl h
+  · right
+    simp only [noneOf, List.all_eq_true] at h
+    exact fun o ho => by simpa using h o ho
+
+theorem trace_stop_after_instances_offered (st0 : St) (acts : List Act) (t : Thread) (ctl : String) (k : Resp → P)
+    (ht : t ∈ (reach st0 acts).ths) (hc : t.ctl = .offered) (hp : t.prog = .call (.stop ctl) k)
+    (d : Obj) (hd : find (reach st0 acts).st ⟨.xrd, t.name⟩ = some d) :
+    crdNotOurs (reach st0 acts).st d.of d.uid = true ∨ ∀ o ∈ (reach st0 acts).st.objs, o.key.kind ≠ .claim := by
+  have := trace_order st0 acts t _ k ht hp
+  rw [hc] at this
+  simp only [safeReq, hd, Bool.or_eq_true] at this
+  rcases this with h | h
+  · exact .inl h
+  · right
+    simp only [noneOf, List.all_eq_true] at h
+    exact fun o ho => by simpa using h o ho
+
+/-- When an XRD finalizer is about to be removed, the corresponding CRD is gone or not
+controlled by the stored XRD. -/
+theorem trace_xrd_fin_after_crd (st0 : St) (acts : List Act) (t : Thread) (kk : Key) (rv : Nat) (k : Resp → P)
+    (ht : t ∈ (reach st0 acts).ths) (hc : t.ctl = .defined)
+    (hp : t.prog = .call (.removeFin kk rv c08DefinedFinalizer) k)
+    (d : Obj) (hd : find (reach st0 acts).st kk = some d) :
+    crdNotOurs (reach st0 acts).st d.ref d.uid = true := by
+  have := trace_order st0 acts t _ k ht hp
+  rw [hc] at this
+  simpa [safeReq, hd] using this
+
+theorem trace_xrd_fin_after_crd_offered (st0 : St) (acts : List Act) (t : Thread) (kk : Key) (rv : Nat) (k : Resp → P)
+    (ht : t ∈ (reach st0 acts).ths) (hc : t.ctl = .offered)
+    (hp : t.prog = .call (.removeFin kk rv c08OfferedFinalizer) k)
+    (d : Obj) (hd : find (reach st0 acts).st kk = some d) :
+    crdNotOurs (reach st0 acts).st d.of d.uid = true := by
+  have := trace_order st0 acts t _ k ht hp
+  rw [hc] at this
+  simpa [safeReq, hd] using this
+
+/-- When a revision's finalizer is about to be removed, the Lock (if any) does not list it. -/
+theorem trace_rev_lock_before_fin (st0 : St) (acts : List Act) (t : Thread) (kk : Key) (rv : Nat) (k : Resp → P)
+    (ht : t ∈ (reach st0 acts).ths) (hc : t.ctl = .rev)
+    (hp : t.prog = .call (.removeFin kk rv c08RevisionFinalizer) k)
+    (l : Obj) (hl : find (reach st0 acts).st lockKey = some l) : kk.name ∉ l.pkgs := by
+  have := trace_order st0 acts t _ k ht hp
+  rw [hc] at this
+  simpa [safeReq, hl] using this
+
+/-- When the finalizer of a composed Usage that names a using resource is about to be
+removed, that using resource is gone. -/
+theorem trace_usage_waits_using (st0 : St) (acts : List Act) (t : Thread) (kk : Key) (rv : Nat) (k : Resp → P)
+    (ht : t ∈ (reach st0 acts).ths) (hc : t.ctl = .usage)
+    (hp : t.prog = .call (.removeFin kk rv c08UsageFinalizer) k)
+    (u : Obj) (hu : find (reach st0 acts).st kk = some u) (hf : u.flag = true) (hr : u.ref ≠ "") :
+    find (reach st0 acts).st ⟨.res, u.ref⟩ = none := by
+  have := trace_order st0 acts t _ k ht hp
+  rw [hc] at this
+  simp only [safeReq, hu, present, hf] at this
+  cases hfd : find (reach st0 acts).st ⟨.res, u.ref⟩ with
+  | none => rfl
+  | some o => simp [hfd, hr] at this
+
+/-! ## non-vacuity: the guarded writes do happen -/
+
+private def mk (k : Key) (uid : Nat) (fins : List String) (del : Bool) : Obj :=
+  { key := k, uid := uid, rv := uid, fins := fins, del := del, owners := [], conds := [], paused := false,
+    ref := "", of := "", flag := false, inuse := false, pkgs := [] }
+
+private def claimWorld (fg : Bool) : St :=
+  { objs := [{ mk ⟨.claim, "ns/c"⟩ 1 [c08ClaimFinalizer] true with ref := "x", flag := fg },
+             { mk ⟨.xr, "x"⟩ 2 [c08XRFinalizer] false with ref := "ns/c" }],
+    nextRv := 3, running := [] }
+
+/-- Background: get claim, get XR, delete XR, remove finalizer: the claim is gone, the XR is terminating. -/
+example : (let s := reach (claimWorld false) [.spawn .claim "ns/c", .step 0 .ok, .step 0 .ok, .step 0 .ok, .step 0 .ok]
+    ((find s.st ⟨.claim, "ns/c"⟩).isNone, (find s.st ⟨.xr, "x"⟩).map (·.del))) = (true, some true) := by decide
+
+/-- Foreground: the first reconcile deletes the XR and waits; the claim keeps its finalizer
+until the XR reconciler and the garbage collector have removed the XR. -/
+example : (let s := reach (claimWorld true) [.spawn .claim "ns/c", .step 0 .ok, .step 0 .ok, .step 0 .ok]
+    ((find s.st ⟨.claim, "ns/c"⟩).map (·.fins), (find s.st ⟨.xr, "x"⟩).map (·.fins))) =
+    (some [c08ClaimFinalizer], some [c08XRFinalizer, fgFin]) := by decide
+
+example : (let s := reach (claimWorld true) [.spawn .claim "ns/c", .step 0 .ok, .step 0 .ok, .step 0 .ok,
+      .spawn .xr "x", .step 1 .ok, .step 1 .ok, .gc,
+      .spawn .claim "ns/c", .step 2 .ok, .step 2 .ok, .step 2 .ok]
+    ((find s.st ⟨.claim, "ns/c"⟩).isNone, (find s.st ⟨.xr, "x"⟩).isNone)) = (true, true) := by decide
+
+private def xrdWorld : St :=
+  { objs := [{ mk ⟨.xrd, "xs.example.org"⟩ 1 [c08DefinedFinalizer] true with ref := "xs.example.org", of := "cs.example.org" },
+             { mk ⟨.crd, "xs.example.org"⟩ 2 [] false with owners := [⟨1, true, true⟩] },
+             mk ⟨.xr, "x"⟩ 3 [c08XRFinalizer] false],
+    nextRv := 4, running := [compositeCtrl "xs.example.org"] }
+
+/-- XRD teardown: first reconcile deletes the instance and waits; after the XR reconciler
+finalized it the second reconcile stops the controller and deletes the CRD; the third
+removes the finalizer. -/
+example : (let s := reach xrdWorld [.spawn .defined "xs.example.org", .step 0 .ok, .step 0 .ok, .step 0 .ok, .step 0 .ok, .step 0 .ok,
+      .spawn .xr "x", .step 1 .ok, .step 1 .ok,
+      .spawn .defined "xs.example.org", .step 2 .ok, .step 2 .ok, .step 2 .ok, .step 2 .ok, .step 2 .ok, .step 2 .ok, .step 2 .ok,
+      .spawn .defined "xs.example.org", .step 3 .ok, .step 3 .ok, .step 3 .ok, .step 3 .ok, .step 3 .ok]
+    (s.st.objs.length, s.st.running)) = (0, []) := by decide
+
+private def revWorld : St :=
+  { objs := [mk ⟨.rev, "p1"⟩ 1 [c08RevisionFinalizer] true, { mk lockKey 2 [] false with pkgs := ["p1", "p2"] }],
+    nextRv := 3, running := [] }
+
+example : (let s := reach revWorld [.spawn .rev "p1", .step 0 .ok, .step 0 .ok, .step 0 .ok, .step 0 .ok, .step 0 .ok]
+    ((find s.st ⟨.rev, "p1"⟩).isNone, (find s.st lockKey).map (·.pkgs))) = (true, some ["p2"]) := by decide
+
+private def usageWorld : St :=
+  { objs := [{ mk ⟨.usage, "u"⟩ 1 [c08UsageFinalizer] true with ref := "using", of := "used", flag := true },
+             mk ⟨.res, "using"⟩ 2 [] false, { mk ⟨.res, "used"⟩ 3 [] false with inuse := true }],
+    nextRv := 4, running := [] }
+
+/-- the Usage waits while the using resource exists, and is finalized once it is gone -/
+example : (let s := reach usageWorld [.spawn .usage "u", .step 0 .ok, .step 0 .ok, .del ⟨.res, "using"⟩,
+      .spawn .usage "u", .step 1 .ok, .step 1 .ok, .step 1 .ok, .step 1 .ok, .step 1 .ok, .step 1 .ok]
+    ((s.ths[0]?).map (fun t => match t.prog with | .ret r => r == .requeue | _ => false),
+     (find s.st ⟨.usage, "u"⟩).isNone, (find s.st ⟨.res, "used"⟩).map (·.inuse))) = (some true, true, some false) := by decide
 
 end Xp.C08
